@@ -93,6 +93,7 @@ def run(ctx):
     ctx.guard(rule_h, ctx, ix)
     ctx.guard(rule_i, ctx, ix)
     ctx.guard(rule_j, ctx, ix)
+    ctx.guard(rule_k, ctx, ix, reg)
 
 
 # ---------------------------------------------------------------------------------------
@@ -906,3 +907,62 @@ def rule_j(ctx, ix):
         removes = any(call_name(c) in ('remove', 'pop') and '_callbacks' in unparse(c.func) for c in calls_in(tc.node))
         ctx.ob(R, tc.construct, 'the pass over the callbacks iterates a snapshot when it removes from the list', not (live and removes),
                detail='_try_callbacks removes callbacks from the list it is iterating: every other callback is skipped', where=tc.where)
+
+
+def rule_k(ctx, ix, reg):
+    """A function (the `using` of a link, of a derived attribute) is saved either by value (pickled) or by its dotted name; the
+    loader of the by-name form looks the name up again.  The by-name form is only sound when the name leads back to the very
+    object that is being saved: a closure, a decorated or a re-bound function shares its name with another object."""
+    from .. import cond
+    R = 'C02.k'
+    ctx.describe(R, 'a function is saved by name only after the name was checked to resolve to that very object', floor=2)
+    sv = reg.savers.get('types.FunctionType', {})
+    ld = reg.loaders.get('types.FunctionType', {})
+    if not sv or not ld:
+        raise AnalysisError('saver / loader of types.FunctionType vanished')
+    for v, f in sorted(sv.items()):
+        obj = f.params[0]
+        l = ld.get(v)
+        if l is None:
+            raise AnalysisError('no loader for version %d of types.FunctionType' % v)
+        rec = l.params[0]
+        # keys the loader resolves by name
+        byname = set()
+        for r in returns_of(l):
+            if r.value is None:
+                continue
+            for c in ast.walk(r.value):
+                if isinstance(c, ast.Call) and call_name(c) in ('lookup_class_with_patches', 'lookup_class') and c.args and \
+                        isinstance(c.args[0], ast.Subscript) and unparse(c.args[0].value) == rec and isinstance(c.args[0].slice, ast.Constant):
+                    byname.add(c.args[0].slice.value)
+        if not byname:
+            raise AnalysisError('%s: the by-name form is no longer recognised' % l.construct)
+        n = 0
+        for r in returns_of(f):
+            if not isinstance(r.value, ast.Dict):
+                continue
+            keys = {k.value for k in r.value.keys if isinstance(k, ast.Constant)}
+            if not (keys & byname):
+                continue
+            n += 1
+            pc = cond.path_condition(f.node, r, expand=True) or ('const', True)
+            ok = False
+            for a in cond.atoms(pc):
+                parts = a.split('|')
+                if parts[0] == 'is' and obj in parts[1:] and any('lookup_class' in p_ for p_ in parts[1:]):
+                    try:
+                        ok = ok or cond.implies(pc, cond.T(a))
+                    except ValueError:
+                        pass
+            ctx.ob(R, f.construct, 'the by-name form is written only when the name resolves to the object itself (identity test)', ok,
+                   detail='%s writes the dotted name of the function under `%s` - without requiring that the name resolves to the very '
+                          'function being saved: a closure or re-bound function that shares its name with a module-level one is '
+                          'saved silently and comes back as the other function (the linked values change)' % (f.construct, pc),
+                   where=where(f, r))
+        if n == 0:
+            raise AnalysisError('%s: no by-name record written' % f.construct)
+        ok = any(isinstance(r.value, ast.Dict) and not ({k.value for k in r.value.keys if isinstance(k, ast.Constant)} & byname)
+                 for r in returns_of(f)) or any(isinstance(x, ast.Raise) for x in ast.walk(f.node))
+        ctx.ob(R, f.construct + ' fallback', 'a function that is not reachable under its name is saved by value or refused loudly', ok,
+               detail='%s has no by-value form (and does not raise) for functions that are not reachable under their name' % f.construct,
+               where=f.where)
